@@ -93,7 +93,9 @@ contract(
         "inline_snapshot._find_external.contains_import": "havoc",
         "inline_snapshot._rewrite_code.start_of": "inline", "inline_snapshot._rewrite_code.end_of": "inline",
     },
-    attrs={"Stmt.first_token": "Token", "Stmt.last_token": "Token", "Stmt.value": "AstV", "AstV.value": "PyV"},
+    # lineno/col_offset of a statement are NOT its first token (a decorated def starts at its first decorator): left unrelated
+    attrs={"Stmt.first_token": "Token", "Stmt.last_token": "Token", "Stmt.value": "AstV", "AstV.value": "PyV",
+           "Stmt.lineno": "Int", "Stmt.col_offset": "Int", "Stmt.end_lineno": "Int", "Stmt.end_col_offset": "Int"},
     requires={},
     ghost={"vars": {"ins_pos": "=None", "n_insert": "=0", "stmts": "=None"},
            "locals": {"last_import": "Opt[Stmt]", "last_token": "Token"},
@@ -156,7 +158,7 @@ contract(
     ensures={
         # C03/C01: the import is considered present only if a *module-level* `from <module> import <name>` exists: a function-local
         # or conditional import does not make the name available to the generated code
-        "true-iff-a-module-level-import-exists [C03,C01,C13]": "ret == any(imports_name(tree.body[j], module, name) for j in range(0, len(tree.body)))",
+        "true-iff-a-module-level-import-exists [C03,C01,C13,C09]": "ret == any(imports_name(tree.body[j], module, name) for j in range(0, len(tree.body)))",
     },
     frame=[],
     safety_props=["C18"],
